@@ -152,7 +152,7 @@ def hitting_oracle(P):
 
 
 def fq_mat(A):
-    return [[F(int(x)) for x in row] for row in A]
+    return [[F(float(x)) for x in row] for row in A]
 
 
 def enc_qb(x):
